@@ -30,6 +30,8 @@ REVERSED_FIXES = {
 }
 # seeded changes that also break a neighbouring property whose check sees them far more reliably
 EXTRA_CHECKS = {"C17-m1": ["C09"], "C17-w3m2": ["C04"]}
+# per-file rounds: checks beyond the ones the author listed (the change is in a helper of another property's detector)
+EXTRA_BY_NAME = {"T08-w8m3": ["C04"]}
 # changes that need more simulated time than the quick tier spends (stated in DESIGN.md 9.6): checked with the thorough tier
 THOROUGH_ONLY = {"P06-w5m1"}
 # (file, old, new, replace-all?, checks)
@@ -102,6 +104,7 @@ def main():
             except Exception:  # noqa: BLE001
                 m = {}
             checks = sorted(set(c for c in re.findall(r"C\d\d", json.dumps([m.get("property"), m.get("also_breaks")])) if c != "C20")) or ["C01"]
+            checks = EXTRA_BY_NAME.get(name, []) + [c for c in checks if c not in EXTRA_BY_NAME.get(name, [])]
         mutants.append((name, "diff", os.path.join(d, "patch.diff"), False, checks))
     for n, checks in REVERSED_FIXES.items():
         mutants.append(("rev_" + n, "diff", os.path.join(HERE, "fixes", n + ".diff"), True, checks))
